@@ -213,8 +213,10 @@ CHECKS.update({
              "serialization specification produces JSON that the deserialization specification maps back to that very value; "
              "C05_round_trip_checked states it with executable hypotheses, which the run evaluates on every generated case "
              "(count in the evidence); C05_compiled_models_round_trip chains it with C04 and C01 so that it speaks about the two models "
-             "of the code (compiled serializer, compiled deserializer); C05_hypotheses_satisfiable; C05_any_data_round_trip. Partial: sets, constraints, "
-             "TypedDict, skip options, exclude_* are outside the theorem and checked case by case on the composed models "
+             "of the code (compiled serializer, compiled deserializer); C05_hypotheses_satisfiable; C05_any_data_round_trip; C05_round_trip_with_symmetric_skips extends it to fields with "
+             "skip(serialization_default), none_as_undefined, Undefined unions, any default, exclude_none / exclude_defaults and "
+             "reordered fields whenever each omission restores the value left out (executable condition). Partial: sets, "
+             "constraints, TypedDict are outside the theorems and checked case by case on the composed models "
              "(roundtrip_case, vm_compute). Tie: model-free round trips on the implementation (direct, through json, and the "
              "dual on accepted data) + model composition on the same values; the two specifications are tied to the "
              "implementation by C01 and C04.",
